@@ -53,6 +53,8 @@ class Contract:
         self.loops = {}
         self.sites = []
         self.modifies_ = []        # list of fn(it, bound) performing havoc at call sites
+        self.frame_ = None         # checked frame: allowed (param, field) cells
+        self.py_readings = {}      # clause name -> CPython reading used by the replay oracle
         self.inline = False
         self.trusted = False       # body is not verified (external / out of reach): contract assumed
         self.model = None          # custom call-site model fn(it, bound, node) -> V
@@ -81,10 +83,13 @@ class Contract:
     def requires(self, name, fn):
         self.requires_.append((name, fn))
 
-    def ensures(self, name, fn, props=None, internal=False):
+    def ensures(self, name, fn, props=None, internal=False, py=None):
         """internal=True: checked on the body but not exported to callers (it speaks about
-        ghost state of the body, e.g. loop witnesses)"""
+        ghost state of the body, e.g. loop witnesses).  py = CPython reading of the same clause for the replay
+        oracle, for clauses whose proof reading uses ghost witnesses or folds (default: fn itself)"""
         self.ensures_.append((name, fn, props))
+        if py is not None:
+            self.py_readings[name] = py
         if internal:
             self.internal_.add(name)
         if props is not None:
@@ -112,6 +117,11 @@ class Contract:
 
     def modifies(self, fn):
         self.modifies_.append(fn)
+
+    def frame(self, *allowed):
+        """checked frame condition: of the objects that existed at entry only the cells (param, field) listed may differ at
+        exit (normal or exceptional); objects allocated by the function are its own.  `allowed` = ('param', 'field') pairs"""
+        self.frame_ = tuple(allowed)
 
     def const(self, name, fn, props=None):
         self.consts_.append((name, fn, props))
@@ -577,6 +587,31 @@ def verify_function(repo, con, schema, lib, registry=None, engine_cls=VEngine, n
         for name, fn, props in con.ensures_:
             goal = fn(env)
             ctx.oblige('post', name, goal)
+        check_frame(it, con, 'post')
+
+    def check_frame(it, con, kind):
+        """nothing outside the frame changed: for every heap field written on this path and a fresh (Skolem) entry-time
+        reference r, heap[f][r] equals the entry value unless (r, f) is an allowed cell"""
+        if con.frame_ is None:
+            return
+        ctx = it.ctx
+        r = ctx.fresh_const('frame!r', RefSort)
+        goals = []
+        for f in sorted(ctx.heap):
+            cur = ctx.heap[f]
+            old = it.entry_heap.get(f)
+            if old is None:
+                old = initial_array(eng, f)
+            if cur.eq(old):
+                continue
+            expect = old
+            for p, pf in con.frame_:
+                if pf == f:
+                    ref = it.entry_args[p].t
+                    expect = z3.Store(expect, ref, z3.Select(cur, ref))
+            goals.append(z3.Select(cur, r) == z3.Select(expect, r))
+        name = 'frame:only %s may change' % (', '.join('%s.%s' % a for a in con.frame_) or 'nothing')
+        ctx.oblige(kind, name, z3.Implies(z3.And(r >= 0, r < type(ctx).BASE), z3.And(*goals) if goals else z3.BoolVal(True)))
 
     def check_exceptional(it, fr, con, exc, yields):
         ctx = it.ctx
@@ -598,6 +633,7 @@ def verify_function(repo, con, schema, lib, registry=None, engine_cls=VEngine, n
         for name, ecls, fn, props in con.exc_ensures_:
             if eng.exc_isinstance(exc.cls, ecls):
                 ctx.oblige('exc', name, fn(env), {'line': exc.line})
+        check_frame(it, con, 'exc')
 
     if single_prefix is not None:
         obligs, problems, siblings = eng.explore_one(run_path, list(single_prefix))
